@@ -32,13 +32,24 @@ def suffixes(rng, unit, others, big):
     return out
 
 
+def _unit(d, u):
+    u = list(u)
+    try:
+        n = d["declared_len"](u)
+    except Exception:
+        n = None
+    if n is not None and 0 < n < len(u):
+        return u[:n]
+    return u
+
+
 def streams(tier, rng):
     big = tier == "thorough"
     for d in xcut.all_decoders():
         if d["declared_len"] is None:
             continue
         op, extra, name = d["op"], d["extra"], d["name"]
-        units = [list(u) for u in d["valid"](rng)]
+        units = [_unit(d, u) for u in d["valid"](rng)]
         if not big:
             units = units[:10]
         cases = []
